@@ -323,6 +323,15 @@ class Round:
             if not m or (given is None and len(m) < 3) or (given is not None and len(m) < 1):
                 ctx.broken_ties.append(("model driver c11", f"{cid}: {m}"))
                 continue
+            # round 11: the two parser models agree on this token list (Model/PrattGrammar.lean `agrees`)
+            gfield = (m[3] if given is None and len(m) > 3 else m[1] if given is not None and len(m) > 1 else "")
+            if gfield:
+                PG["cases"] += 1
+                PG["accepted"] += "accepted=true" in gfield
+                if "grammar=true" not in gfield:
+                    PG["diffs"] += 1
+                    if PG["diffs"] <= 3:
+                        ctx.broken_ties.append(("Pratt model vs Grammar model (pratt_is_grammar cross-check)", f"{cid}: {tree} {m[0][:200]}"))
             if given is None:
                 res[cid] = {"tree": tree, "text": m[0], "model": subst_sexp(m[1]), "wf": m[2] == "wf=true", "real": {}, "src": {}}
             else:
@@ -592,7 +601,11 @@ def u_sweep(ctx, have_model, replay_cases=None):
             "classes(literals)": classes, "samples": samples}
 
 
+PG = {"cases": 0, "accepted": 0, "diffs": 0}
+
+
 def run(ctx):
+    PG.update(cases=0, accepted=0, diffs=0)
     ctx.extract()
     ctx.build_lean(["GomlVerif.Props.C11", "GomlVerif.Props.Lower"])
     if not ctx.build_harness():
@@ -873,6 +886,7 @@ def run(ctx):
                 "parse_ast_file, or one literal compiled by the whole pipeline; non-trivial = tree with at least 3 nodes "
                 "(distinct by tree, for the redundant-parentheses stream by tree+text) or a string literal (distinct by spelling)",
         "samples": samples + lit_samples,
+        "pratt_vs_grammar_model(agrees)": dict(PG),
         "streams": by_stream, "root_kinds": by_kind,
         "oracle_tree_roundtrips_ok": n_oracle_ok, "tie_model_equals_real": n_tie_ok,
         "oracle_min_vs_full_parentheses": n_full, "oracle_min_vs_full_parentheses_ok": n_full_ok,
